@@ -64,6 +64,19 @@ def make_object(kind, span_desc, strict=False, dtype=None, strict_rep=0):
     strict = [strict, np.bool_(strict), int(strict)][strict_rep % 3]      # the same flag in another representation
     span = spans.build(span_desc)
     n = len(span)
+    # objects that have no variable yet
+    if kind == 'empty-container':
+        return VectorContainer(span, strict=strict)
+    if kind == 'empty-model':
+        return fsic.BaseModel(span, strict=strict, **extra)
+    if kind == 'empty-linker':
+        class Sub0(fsic.BaseModel):
+            ENDOGENOUS = ['A']
+            NAMES = ENDOGENOUS
+            CHECK = ENDOGENOUS
+        lk0 = fsic.BaseLinker({'a': Sub0(span)}, **extra)
+        lk0.strict = strict
+        return lk0
     if kind == 'container':
         c = VectorContainer(span, strict=strict)
         c.add_variable('X', np.arange(float(n)))
